@@ -33,6 +33,14 @@ inductive Raw (Hash Sig : Type) where
   | garbage
   | sth (s : Sth Hash Sig)
 
+/-- The bytes `signSTH` signs and `verifier.VerifySignature` checks: `tls.Marshal(ct.SignedTreeHead)` —
+    `tree_size(8) timestamp(8) sha256_root_hash[32] hash_alg(1) sig_alg(1)
+    signature<0..2^16-1> log_id[32]` (the struct has no tls tags and the untagged `Version` enum contributes no byte; layout as observed and compared with
+    the real bytes on every run, `cosin` lines). The log ID is the one filled in by `parse`. -/
+def cosigInput (size ts : Nat) (root : Bytes) (hashAlg sigAlg : Nat) (sig logId : Bytes) : Bytes :=
+  beEnc 8 size ++ beEnc 8 ts ++ root ++
+    [UInt8.ofNat hashAlg, UInt8.ofNat sigAlg] ++ beEnc 2 sig.length ++ sig ++ logId
+
 inductive ParseErr where
   | notFound   -- log not configured
   | badJson
